@@ -143,11 +143,14 @@ impl Case for C12Case {
                     ("RUN-other", vec!["RUN".to_string()])
                 }
                 Mode::RunSame => {
-                    enter_program(&mut f, &self.p1);
+                    // the prefix may have edited the program: the twin gets what LIST shows now
+                    let cur: Vec<String> = w.listing_text().lines().map(|s| s.to_string()).collect();
+                    enter_program(&mut f, &cur);
                     ("RUN-same", vec!["RUN".to_string()])
                 }
                 Mode::Clear => {
-                    enter_program(&mut f, &self.p1);
+                    let cur: Vec<String> = w.listing_text().lines().map(|s| s.to_string()).collect();
+                    enter_program(&mut f, &cur);
                     let mut l = vec!["CLEAR".to_string()];
                     l.extend(self.probes.iter().cloned());
                     ("CLEAR", l)
@@ -513,6 +516,10 @@ fn residue_statement(rng: &mut Rng) -> String {
         "DEFSTR G",
         "DEFDBL A-Z",
         "DEFSTR S-T:S=\"X\"",
+        "PRINT (",
+        "GOTO 64999",
+        "DATA 1,2",
+        "A=",
         "READ A",
         "READ S$,T$",
         "FOR I%=1 TO 5",
@@ -590,6 +597,14 @@ impl Property for C12 {
                 prefix.push(H::StopRun {
                     line: if rng.pct(85) { "RUN".into() } else { "CONT".into() },
                     intr: if rng.pct(60) { Some(rng.below(250)) } else { None },
+                });
+            } else if rng.pct(15) {
+                // a typed program line right after whatever came before (a refused direct statement,
+                // a failed run): nothing of that may stick to the edited program
+                prefix.push(H::Line {
+                    text: crate::props::c04::edit_line(rng, &prog1, &cfg),
+                    must_not_edit: false,
+                    budget: 500,
                 });
             } else {
                 prefix.push(H::Line {
